@@ -112,6 +112,15 @@ theorem C06_job_unique (cfg : Cfg) (s : State) (hr : Reachable cfg s) :
     have l1 := h.f_worker w j h1; have l2 := h.f_chan j' h2
     rw [e, l2] at l1; cases l1
 
+/-- contract panics do not poison the cache: a call that violates the contract (nil loader, nil key, unsupported key
+    type) panics before the shard lock is taken and before any shared access – as a transition it is the identity, so
+    reachability, the invariants and every theorem above are unaffected and the caller that recovers finds the cache as
+    it was (in particular no lock is left held: `C06_lock_holder_enabled`) -/
+theorem C06_contract_panic_harmless (cfg : Cfg) (s : State) (v : Contract) :
+    contractPanic s v = s ∧ (Reachable cfg s → Reachable cfg (contractPanic s v)) ∧
+    (CanProgress cfg (contractPanic s v) ↔ CanProgress cfg s) :=
+  ⟨rfl, id, Iff.rfl⟩
+
 /-- the deadlock of the code before the fix, `decide`d on the model's old variant (`cfg.old = true`: sendJob inside
     the critical section): P = 1, J = 1, two Loads over keys of distinct shards and a pending tick. -/
 theorem C06_old_deadlock :
